@@ -67,13 +67,15 @@ fn phdr(p_type: u32, p_offset: u64, p_vaddr: u64) -> Vec<u8> {
 
 /// craft linker data in a two-page pattern region that is followed by a PROT_NONE page
 pub fn case_dso(id: &str, r: &mut Rng) -> String {
-    let t = match Target::spawn(&["-r".to_string(), "8192:n".to_string()]) {
+    let scen = *r.pick(&["good", "cyclic", "selfloop", "hugephnum", "mulphnum", "vaddr-underflow", "dyn-overflow", "dyn-short", "rdebug-unreadable", "linkmap-short", "name-unreadable", "no-null", "bigphnum"]);
+    // (bigphnum: a program-header count beyond what an ELF header can announce, over a region large enough for all of
+    // those headers to be read)
+    let t = match Target::spawn(&["-r".to_string(), if scen == "bigphnum" { "4194304:r".to_string() } else { "8192:n".to_string() }]) {
         Ok(t) => t,
         Err(_) => return format!("C02 {} kind=spawnfail", id),
     };
     let reg = t.desc["regions"][0]["addr"].as_u64().unwrap();
     let end = reg + 8192;
-    let scen = *r.pick(&["good", "cyclic", "selfloop", "hugephnum", "mulphnum", "vaddr-underflow", "dyn-overflow", "dyn-short", "rdebug-unreadable", "linkmap-short", "name-unreadable", "no-null"]);
     // defaults: PT_LOAD(offset 0, vaddr 0), PT_DYNAMIC at +0x200, r_debug at +0x400, link_maps at +0x600, names at +0x800
     let mut phnum: u64 = 2;
     let mut load_vaddr: u64 = 0;
@@ -86,6 +88,7 @@ pub fn case_dso(id: &str, r: &mut Rng) -> String {
         "cyclic" => maps[1].3 = lm0,
         "selfloop" => maps[0].3 = lm0,
         "hugephnum" => phnum = 1 << 40,
+        "bigphnum" => phnum = *r.pick(&[65535u64, 65536, 65537, 70000, 74000]),
         "mulphnum" => phnum = u64::MAX / 8,
         "vaddr-underflow" => load_vaddr = reg + 0x1000_0000,
         "dyn-overflow" => dyn_vaddr = u64::MAX - 0x100,
